@@ -251,6 +251,7 @@ func run(ctx context.Context, f ComputeFunc) (*computation, error) {
 	// Compute f and write the results to the c
 	value, err := f(childCtx)
 	if err != nil {
+		vh("comp.fail", &c.node)
 		go c.node.release()
 		return nil, err
 	}
